@@ -130,6 +130,24 @@ theorem pickOk_range {s : SendSpec} {pred flow a b fresh} (h : pickOk s pred flo
   rw [h1]
   exact least_spec _ _ (by rw [h1] at h2; exact h2)
 
+/-- every byte of a legally answered range is `Pending` or `Lost` -/
+theorem pickOk_range_colour {s : SendSpec} {pred flow a b fresh} (h : pickOk s pred flow (.range a b fresh))
+    (x : Nat) (h1 : a ≤ x) (h2 : x < b) : s.colour x = .pending ∨ s.colour x = .lost := by
+  obtain ⟨_, _, _, _, hca, hcol, _⟩ := pickOk_range h
+  rw [hcol x h1 h2]
+  rcases cand_iff.1 hca with h4 | ⟨h4, _⟩
+  · exact Or.inr h4
+  · exact Or.inl h4
+
+/-- a legally answered range that is not fresh consists of `Lost` bytes -/
+theorem pickOk_range_lost {s : SendSpec} {pred flow a b} (h : pickOk s pred flow (.range a b false))
+    (x : Nat) (h1 : a ≤ x) (h2 : x < b) : s.colour x = .lost := by
+  obtain ⟨_, _, _, _, hca, hcol, hfr⟩ := pickOk_range h
+  rw [hcol x h1 h2]
+  rcases cand_iff.1 hca with h4 | ⟨h4, _⟩
+  · exact h4
+  · rw [h4] at hfr; cases hfr
+
 /-! ### the invariant of reachable states -/
 
 structure Inv (s : SendSpec) : Prop where
